@@ -590,6 +590,10 @@ def fam_mcm(quick: bool):
             if n == 3 and quick and (zlib.crc32(repr(body).encode()) % 4):
                 continue
             out.append([("open", 1, 0)] + list(body))
+    # the handle is used behind the nested list in which the with block is introduced (F02abs-3)
+    out.append([("if", call(2), [("open", 1, 0), ("read", 2, 1)], []), ("read", 2, 1)])
+    out.append([("open", 1, 2), ("open", 1, 0), ("open", 3, 1), ("read", 2, 1), ("close", 1), ("close", 3)])
+    out.append([("if", call(2), [("open", 1, 0), ("read", 2, 1)], [("open", 1, 1)]), ("close", 1)])
     for body in itertools.product(pool[:9], repeat=2):
         out.append([("expr", call(3))] + [("if", call(2), [("open", 1, 0)] + list(body), [("pass",)])] + [("expr", call(1, name(2)))])
     return out
@@ -618,7 +622,54 @@ def _handle_rebound(case):
     return bool(case.get("rebound"))
 
 
-SIGS = {"mutable_display_shared": _mutable_display, "handle_rebound_in_block": _handle_rebound}
+def mentioned(b) -> set:
+    out = set()
+
+    def ex(e):
+        if e[0] == "name":
+            out.add(e[1])
+        elif e[0] in ("disp", "call"):
+            for x in e[2]:
+                ex(x)
+    for s in b:
+        t = s[0]
+        if t in ("expr", "return"):
+            ex(s[1])
+        elif t == "assign":
+            ex(s[2])
+        elif t == "append":
+            out.add(s[1])
+            ex(s[2])
+        elif t == "close":
+            out.add(s[1])
+        elif t == "read":
+            out.add(s[2])
+        elif t == "if":
+            ex(s[1])
+            out |= mentioned(s[2]) | mentioned(s[3])
+        elif t == "with":
+            out |= mentioned(s[3])
+    return out
+
+
+def use_after_with(b, after=frozenset()) -> bool:
+    """a `with open(..) as x` in a nested list whose x is mentioned in an enclosing list behind that nested list"""
+    for i, s in enumerate(b):
+        later = after | mentioned(b[i + 1:])
+        if s[0] == "with":
+            if s[1] in after or use_after_with(s[3], later):
+                return True
+        elif s[0] == "if" and (use_after_with(s[2], later) or use_after_with(s[3], later)):
+            return True
+    return False
+
+
+def _used_after_nested_list(case):
+    return bool(case.get("used_after"))
+
+
+SIGS = {"mutable_display_shared": _mutable_display, "handle_rebound_in_block": _handle_rebound,
+        "handle_used_after_nested_list": _used_after_nested_list}
 
 
 def match_finding(kf, site, case):
@@ -907,7 +958,7 @@ def check(run, mods, wd, rnd) -> dict:
             if explained_by_close(r1, r2):
                 hist["missing_context_manager:oracle-one-more-close"] += 1
                 continue
-            case = {"source": c[2], "output": c[3], "script": script, "rebound": rebinding_site(b),
+            case = {"source": c[2], "output": c[3], "script": script, "rebound": rebinding_site(b), "used_after": use_after_with(ob),
                     "problem": f"script {script}: {r1} before, {r2} after"}
             m = match_finding(kf, "fixes.missing_context_manager", case)
             if m is None:
